@@ -6,6 +6,7 @@ import vlib
 META = {
     "property_id": "C07",
     "level": "proof",
+    "coq_targets": ["SetJudge.vo"],
     "technique": "Coq refinement proof: the list-backed model of set.go refines a membership predicate for every element type with decidable equality, every operation sequence and every map iteration order; in-kernel correspondence of model, abstract set and the real Set[T] on generated op sequences with full membership probes",
     "design_ref": "DESIGN.md §4 C07",
     "level_text": "Proof: SetProofs.v shows for every element type T with a boolean equality reflecting =, every argument list (repeats, absent, empty) and every operation sequence from the nil set that the model of set/set.go keeps a duplicate-free key list, that Has/HasAny/Slice/Add/AddSet/Remove/RemoveSet are exactly all-members / some-member / each-member-once / union / difference with changed-flags true iff membership changed, for every order in which Go may range over a map, and that the whole run refines the abstract set (Props/C07.v, closed under the global context). The model is tied to the current source by running the real Set[int|string|struct] on generated sequences and judging every observation inside Coq against both the model and the abstract set.",
